@@ -29,6 +29,8 @@ Step ==
         /\ UNCHANGED <<len, base, persisted, up>>
      \/ /\ Ev.op = "cb.ret" /\ up /\ phase = "cb" /\ Ev.off = cur /\ phase' = "ret"
         /\ UNCHANGED <<len, base, persisted, cursor, cur, up>>
+     \/ /\ Ev.op = "cb.fail" /\ up /\ phase = "cb" /\ Ev.off = cur /\ phase' = "idle"   \* the callback refused the entry: nothing is recorded for it
+        /\ UNCHANGED <<len, base, persisted, cursor, cur, up>>
      \/ /\ Ev.op = "persisted" /\ up /\ phase = "ret" /\ Ev.off = cur /\ persisted' = cur /\ phase' = "per"
         /\ UNCHANGED <<len, base, cursor, cur, up>>
      \/ /\ Ev.op = "truncated" /\ up /\ phase = "per" /\ Ev.off = cur /\ base' = M!TruncTo(base, cur) /\ phase' = "idle"
